@@ -354,6 +354,10 @@ class Layout:
                     lit = "0x" + "_".join(h[i:i + 4] for i in range(0, len(h), 4))
                 elif form == "oct":
                     lit = f"{v:#o}"
+                elif form == "sfx":
+                    lit = f"{v:#X}".replace("0X", "0x") + f"_u{self.storage}"
+                elif form == "dec_sfx":
+                    lit = f"{v}u{self.storage}"
                 else:
                     lit = f"{v}"
                 args.append(f"default{sep} {lit}")
